@@ -100,6 +100,95 @@ theorem open_get_exact_full_statement_false : ¬ open_get_exact_full_statement :
   revert this
   decide +kernel
 
+/-- `end_get_spec`, exactly as the property words it: for every end-position sequence (zeros =
+nodes without a recorded end; any `text_len` that bounds the entries) and **every lookup history**,
+`EndPositions::get(i)` is
+* `None` past the end;
+* exactly the node's own end if one was recorded (`ends[i] ≠ 0`);
+* for a node without one: `None`, or the end recorded for the *last earlier* node that has one.
+Holds for both variants (compact when the non-zero ends are non-decreasing, dense otherwise). -/
+theorem end_get_spec (hpc : ∀ w, pc w = popcount w) (hsiw : ∀ w k, siw w k = selectInWordSpec w k)
+    (hrate : 0 < rate) (ends : List Nat) (textLen : Nat) (hle : ∀ e ∈ ends, e ≤ textLen)
+    (hsmall : ends.length < usizeMax) (hist : List Nat) (i : Nat) :
+    let a := ((EndPositions.build pc siw rate ends textLen).get pc siw rate
+      ((EndPositions.build pc siw rate ends textLen).runFrom pc siw rate Cursor.init hist).2 i).1
+    (ends.length ≤ i → a = .val none) ∧
+    (∀ (hi : i < ends.length), ends[i] ≠ 0 → a = .val (some ends[i])) ∧
+    (∀ (hi : i < ends.length), ends[i] = 0 → a = .val none ∨
+      ∃ j, ∃ (hj : j < i), ends[j] ≠ 0 ∧ (∀ j', j < j' → j' ≤ i → ends[j']? = some 0) ∧
+        a = .val (some ends[j])) := by
+  intro a
+  have ha : a = _ := end_get_after hpc hsiw hrate ends textLen hle hsmall hist i
+  by_cases hmono : endMono 0 ends = true
+  · rw [if_pos hmono] at ha
+    refine ⟨fun h => ?_, fun hi hne => ?_, fun hi h0 => ?_⟩
+    · rw [ha]; unfold endFn
+      rw [List.getElem?_eq_none (by rw [fillFrom_length]; exact h)]
+    · have hi' : i < (fillFrom 0 ends).length := by rw [fillFrom_length]; exact hi
+      have := (fillFrom_getElem 0 ends i hi hi').1 hne
+      rw [ha]; unfold endFn
+      rw [List.getElem?_eq_getElem hi', this]
+      cases h : ends[i] with
+      | zero => exact absurd h hne
+      | succ v => rfl
+    · have hi' : i < (fillFrom 0 ends).length := by rw [fillFrom_length]; exact hi
+      rcases (fillFrom_getElem 0 ends i hi hi').2 h0 with ⟨b1, _⟩ | ⟨j, hj, b1, b2, b3⟩
+      · left
+        rw [ha]; unfold endFn
+        rw [List.getElem?_eq_getElem hi', b1]
+        rfl
+      · right
+        refine ⟨j, hj, b1, b3, ?_⟩
+        rw [ha]; unfold endFn
+        rw [List.getElem?_eq_getElem hi', b2]
+        cases h : ends[j] with
+        | zero => exact absurd h b1
+        | succ v => rfl
+  · rw [if_neg hmono] at ha
+    refine ⟨fun h => ?_, fun hi hne => ?_, fun hi h0 => ?_⟩
+    · rw [ha, List.getElem?_eq_none h]; rfl
+    · rw [ha, List.getElem?_eq_getElem hi]
+      simp [Option.filter, Nat.pos_of_ne_zero hne]
+    · left
+      rw [ha, List.getElem?_eq_getElem hi, h0]
+      rfl
+
+/-- The clause "an end recorded for an earlier node that lies at or before its start": whenever the
+recorder upholds the parser's invariant (every end recorded before node `i` is at or before node
+`i`'s start `s`), an inherited answer for a node without an own end is `≤ s`. -/
+theorem end_inherited_le_start (hpc : ∀ w, pc w = popcount w) (hsiw : ∀ w k, siw w k = selectInWordSpec w k)
+    (hrate : 0 < rate) (ends : List Nat) (textLen : Nat) (hle : ∀ e ∈ ends, e ≤ textLen)
+    (hsmall : ends.length < usizeMax) (hist : List Nat) (i : Nat) (hi : i < ends.length)
+    (h0 : ends[i] = 0) (s : Nat) (hparser : ∀ j, ∀ (hj : j < i), ends[j]'(by omega) ≤ s) (e : Nat)
+    (he : ((EndPositions.build pc siw rate ends textLen).get pc siw rate
+      ((EndPositions.build pc siw rate ends textLen).runFrom pc siw rate Cursor.init hist).2 i).1
+        = .val (some e)) : e ≤ s := by
+  obtain ⟨_, _, h3⟩ := end_get_spec hpc hsiw hrate ends textLen hle hsmall hist i
+  rcases h3 hi h0 with h | ⟨j, hj, _, _, h⟩
+  · rw [h] at he; simp at he
+  · rw [h] at he
+    have : ends[j] = e := by simpa using he
+    rw [← this]; exact hparser j hj
+
+/-- `history_irrelevant` for the structures the index actually holds: the answers of
+`OpenPositions::get` and `EndPositions::get` after two arbitrary histories coincide (no hypothesis
+on the positions beyond the `usize` size bound; holds in particular in the F4 situation). -/
+theorem open_history_irrelevant (hpc : ∀ w, pc w = popcount w) (hsiw : ∀ w k, siw w k = selectInWordSpec w k)
+    (hrate : 0 < rate) (positions : List Nat) (textLen : Nat) (hsmall : positions.length < usizeMax)
+    (h₁ h₂ : List Nat) (i : Nat) :
+    ((OpenPositions.build pc siw rate positions textLen).get pc siw rate
+      ((OpenPositions.build pc siw rate positions textLen).runFrom pc siw rate Cursor.init h₁).2 i).1
+    = ((OpenPositions.build pc siw rate positions textLen).get pc siw rate
+      ((OpenPositions.build pc siw rate positions textLen).runFrom pc siw rate Cursor.init h₂).2 i).1 := by
+  unfold OpenPositions.build
+  by_cases hm : isMonotonic positions = true
+  · rw [if_pos hm]
+    have wf := wf_buildOpen (pc := pc) (siw := siw) hpc hsiw hrate positions textLen
+      (pairwise_of_isMonotonic positions hm) hsmall
+    rw [open_runFrom_compact, open_runFrom_compact]
+    exact history_irrelevant hpc hsiw (openFlavor_ok pc) wf h₁ h₂ i
+  · rw [if_neg hm]; rfl
+
 /-- Finding F4, refutation witness on the model of the code: with start positions `[0, 64]` and
 `text_len = 64` the open-position table answers `None` for node 1 (recorded start 64). -/
 theorem f4_witness :
@@ -116,6 +205,19 @@ example :
     (runFrom popc selectCtz 256 (openFlavor popc) (buildOpen popc selectCtz 256 [0, 0, 9, 9, 70] 100)
       Cursor.init [4, 1, 1, 3, 9, 0]).1
       = [.val (some 70), .val (some 0), .val (some 0), .val (some 9), .val none, .val (some 0)] := by
+  decide +kernel
+
+/-- Non-vacuity of `end_get_spec`: own end, inherited end, leading container, dense fallback. -/
+example :
+    (EndPositions.runFrom popc selectCtz 256 (EndPositions.build popc selectCtz 256 [0, 10, 0, 0, 20, 0] 20)
+      Cursor.init [5, 0, 3, 1, 4, 9]).1
+      = [.val (some 20), .val none, .val (some 10), .val (some 10), .val (some 20), .val none] := by
+  decide +kernel
+
+example :
+    (EndPositions.runFrom popc selectCtz 256 (EndPositions.build popc selectCtz 256 [0, 20, 10, 0, 30] 100)
+      Cursor.init [3, 2, 1, 0]).1
+      = [.val none, .val (some 10), .val (some 20), .val none] := by
   decide +kernel
 
 end SV.Props.C17
